@@ -32,13 +32,13 @@ DBs(s) ==
   \cup {[b EXCEPT ![i].t = NT("ascii")] : i \in {j \in 1..k : b[j].t.n = "text"}}
   \cup {[b EXCEPT ![i] = X] : i \in 1..k}
   \cup (IF Six /\ s \in {"Plain", "Ordered"} THEN Perm(b \o <<X, Y>>) ELSE {})
-Modes(s) == IF s = "Flat" THEN {"row"} ELSE {"udt", "row"}
+Modes(s) == IF s \in {"Flat", "Flat2"} THEN {"row"} ELSE IF s \in {"OrderedAM", "NameAM"} THEN {"udt"} ELSE {"udt", "row"}
 VARIABLE c
 Init ==
   \/ \E s \in Structs : \E m \in Modes(s) : \E db \in DBs(s) : c = [s |-> s, mode |-> m, db |-> db, vs |-> 1, mask |-> {}, wlen |-> Len(db)]
   \/ \E s \in Structs : \E m \in Modes(s) : \E db \in {Base(s), Rev(Base(s)), Ins(Base(s), 2, X)} : \E vs \in {1, 2} :
        \E mask \in SUBSET (1..Len(db)) : c = [s |-> s, mode |-> m, db |-> db, vs |-> vs, mask |-> mask, wlen |-> Len(db)]
-  \/ \E s \in Structs \ {"Flat"} : \E db \in {Base(s), Ins(Base(s), 2, X)} : \E mask \in {{}, {1}} : \E wl \in 0..(Len(db) - 1) :
+  \/ \E s \in Structs \ {"Flat", "Flat2"} : \E db \in {Base(s), Ins(Base(s), 2, X)} : \E mask \in {{}, {1}} : \E wl \in 0..(Len(db) - 1) :
        c = [s |-> s, mode |-> "udt", db |-> db, vs |-> 1, mask |-> mask, wlen |-> wl]
 Next == UNCHANGED c
 Spec == Init /\ [][Next]_c
@@ -52,7 +52,7 @@ Emit == PrintT(<<"CASE", ToJson([s |-> c.s, mode |-> c.mode, db |-> c.db, vals |
 RoundTrip ==
   (c.wlen = Len(c.db) /\ c.mask = {}) =>
     LET e == SerExp(c.s, c.mode, c.db, Vals) IN
-    (e.ok = 1 /\ e.tail = 0 /\ c.s # "Flat") =>
+    (e.ok = 1 /\ e.tail = 0 /\ c.s \notin {"Flat", "Flat2"} /\ Len(e.cells) = Len(Active(Struct(c.s, c.mode, "ser")))) =>   \* every field was sent
        LET d == DeExp(c.s, c.mode, c.db, WV) fs == Struct(c.s, c.mode, "de").fs IN
        /\ d.tc = 1 /\ d.ok = 1
        /\ Concat(e.cells) = WireOf(c.db, WV) => \A j \in 1..Len(fs) : fs[j].skip \/ NormV(d.val[j]) = NormV(Vals[fs[j].r])
